@@ -155,6 +155,10 @@ pub fn gen_c05(ctx: &Ctx, run: u64) -> ScenarioA {
             7 => script.push(Intent::WaitBestmove),
             _ => script.push(Intent::WaitPolls(rng.range(0, 6))),
         }
+        // `debug on|off` is part of the protocol too (it must change nothing that matters here)
+        if rng.chance(1, 40) {
+            script.push(Intent::Raw(if rng.chance(1, 2) { "debug on".into() } else { "debug off".into() }));
+        }
     }
     // GUI ends the session with quit, or simply dies (EOF)
     if rng.chance(7, 10) {
@@ -240,15 +244,27 @@ pub fn judge_a(ctx: &Ctx, sc: &ScenarioA, out: &mut OutcomeA, agg: &mut Agg) -> 
 /// C19 through the UCI text: the first info line of the first search after a `ucinewgame` reports a
 /// fill that a table emptied by the `ucinewgame` can have reached with the nodes searched so far.
 fn judge_c19_a(sc: &ScenarioA, out: &mut OutcomeA) {
-    // table size in effect: the last Hash value the script set (C19 sessions set it once, at the start)
-    let mut mb: usize = sc.knobs.initial_hash_mb.unwrap_or(256);
     let mut go_index = 0usize;
     let mut after_newgame = false;
     for i in &sc.script {
         match i {
-            Intent::SetOption { name, value } if name == "Hash" => mb = value.parse().unwrap_or(mb),
             Intent::UciNewGame => after_newgame = true,
             Intent::Go(_) => {
+                // table size in effect for this go: the last Hash value the engine did not refuse
+                let mb: usize = out.gos.get(go_index).and_then(|g| g.hash_mb_believed).unwrap_or(sc.knobs.initial_hash_mb.unwrap_or(256));
+                // a one-slot table (Hash 0) is full after the first store: every report must say so
+                if mb == 0 {
+                    if let Some(g) = out.gos.get(go_index) {
+                        if let Some(bad) = g.infos.iter().find(|i| i.hashfull.map(|h| h != 1000).unwrap_or(false)) {
+                            out.found.push(Found {
+                                class: "tt-occupancy".into(),
+                                message: format!("Hash 0 was set and not refused (one slot), but `info depth {}` reports hashfull {} instead of 1000", bad.depth, bad.hashfull.unwrap_or(0)),
+                                signature: "tt-occupancy one-slot table over UCI".into(),
+                            });
+                            return;
+                        }
+                    }
+                }
                 if after_newgame {
                     if let Some(g) = out.gos.get(go_index) {
                         if let Some(first) = g.infos.first() {
@@ -256,7 +272,7 @@ fn judge_c19_a(sc: &ScenarioA, out: &mut OutcomeA) {
                             let nodes = first.nodes.unwrap_or(0) + 1;
                             let max_fill = (nodes.min(slots) * 1000 / slots) + 1;
                             if let Some(h) = first.hashfull {
-                                if h > max_fill && out.refused_setoptions == 0 {
+                                if h > max_fill {
                                     out.found.push(Found {
                                         class: "tt-not-empty-after-newgame".into(),
                                         message: format!("first info line after ucinewgame reports hashfull {h} after {nodes} nodes on a {mb} MB table ({slots} slots): the table was not emptied"),
@@ -287,6 +303,22 @@ pub fn gen_c19_a(ctx: &Ctx, run: u64) -> ScenarioA {
         script.push(Intent::Position { fen, moves });
         script.push(Intent::Go(GoSpec::depth(rng.range(4, 6) as u8)));
         script.push(Intent::WaitBestmove);
+        // the GUI may change the table size the moment it has seen bestmove (the engine may refuse
+        // that with its own error line, in which case a GUI repeats the request)
+        if rng.chance(1, 2) {
+            let v = rng.pick(&["0", "0", "1", "2", "3"]).to_string();
+            script.push(Intent::SetOption { name: "Hash".into(), value: v.clone() });
+            if rng.chance(1, 2) {
+                script.push(Intent::IsReady);
+                script.push(Intent::SetOption { name: "Hash".into(), value: v });
+            }
+            if rng.chance(1, 2) {
+                let (fen, moves) = gen_position(&mut rng, false);
+                script.push(Intent::Position { fen, moves });
+                script.push(Intent::Go(GoSpec::depth(rng.range(1, 4) as u8)));
+                script.push(Intent::WaitBestmove);
+            }
+        }
         // the new game starts the moment the GUI has seen bestmove
         script.push(Intent::UciNewGame);
         let (fen, moves) = gen_position(&mut rng, false);
@@ -372,7 +404,8 @@ fn judge_c14(sc: &ScenarioA, out: &mut OutcomeA, agg: &mut Agg) -> u64 {
                 // what the GUI sent for the side to move (absent = no time)
                 let r_ms = if white { g.spec.wtime } else { g.spec.btime }.unwrap_or(0);
                 let r_ns = r_ms as u128 * 1_000_000;
-                let ov_ns = lim.overhead_ns as u128;
+                // the overhead the GUI configured (not what the engine thinks it is)
+                let ov_ns = g.overhead_ms_configured.map(|m| m as u128 * 1_000_000).unwrap_or(lim.overhead_ns as u128);
                 if ov_ns * 2 <= r_ns && g.spec.movestogo.map(|m| m >= 1).unwrap_or(true) {
                     let cap = (r_ns - ov_ns) / 2;
                     let tol = cap / 1_000_000 + 1_000; // f32 rounding of Duration::mul_f32, plus 1 µs
@@ -380,7 +413,7 @@ fn judge_c14(sc: &ScenarioA, out: &mut OutcomeA, agg: &mut Agg) -> u64 {
                         out.found.push(Found {
                             class: "limit-hard-exceeds-half".into(),
                             message: format!("`{}` with Move Overhead {} ms ({} to move): hard limit {} ns exceeds half of the remaining time after overhead ({} ns)",
-                                g.spec.line(), lim.overhead_ns / 1_000_000, if white { "white" } else { "black" }, lim.hard_ns, cap),
+                                g.spec.line(), ov_ns / 1_000_000, if white { "white" } else { "black" }, lim.hard_ns, cap),
                             signature: "limit-hard-exceeds-half".into(),
                         });
                     }
@@ -1265,6 +1298,13 @@ pub fn gen_c13(ctx: &Ctx, run: u64) -> ScenarioA {
         if rng.chance(1, 6) {
             script.push(Intent::UciNewGame);
         }
+        if rng.chance(1, 12) {
+            script.push(Intent::Raw(if rng.chance(2, 3) { "debug on".into() } else { "debug off".into() }));
+        }
+        // a `stop` while idle is legal at any time
+        if rng.chance(1, 10) {
+            script.push(Intent::Stop);
+        }
         if rng.chance(3, 4) {
             let (fen, moves) = gen_position(&mut rng, false);
             cur = (fen.clone(), moves.clone());
@@ -1378,6 +1418,16 @@ fn gen_c14_tuple(rng: &mut Rng, white_to_move: bool) -> (GoSpec, u64) {
         }
     }
     g.movestogo = mtg;
+    // the opponent may have overstepped (a GUI that does not enforce the flag sends a negative clock)
+    if rng.chance(1, 20) {
+        if white_to_move && g.btime.is_some() {
+            g.btime = Some(rng.range(1, 5_000));
+            g.btime_negative = true;
+        } else if !white_to_move && g.wtime.is_some() {
+            g.wtime = Some(rng.range(1, 5_000));
+            g.wtime_negative = true;
+        }
+    }
     (g, overhead)
 }
 
@@ -1408,6 +1458,10 @@ pub fn gen_c14(ctx: &Ctx, run: u64) -> ScenarioA {
             } else {
                 let (g, overhead) = gen_c14_tuple(&mut rng, white);
                 script.push(Intent::SetOption { name: "Move Overhead".into(), value: overhead.to_string() });
+                // options are independent of each other, in whatever order they are sent
+                if rng.chance(1, 8) {
+                    script.push(Intent::SetOption { name: "Threads".into(), value: "1".into() });
+                }
                 script.push(Intent::Go(g));
             }
             script.push(Intent::Stop);
@@ -1517,6 +1571,20 @@ fn gen_c12_script(rng: &mut Rng, thorough: bool, with_newgame: bool, bare_go_aft
     let n = rng.range(2, if thorough { 9 } else { 6 });
     let cut = if with_newgame { rng.range(1, n - 1) } else { u64::MAX };
     let mut last_position: Option<(Option<String>, Vec<String>)> = None;
+    // a long old game now and then: the per-search counters of the tables wrap (or just do not)
+    if with_newgame && rng.chance(1, 40) {
+        let (fen, moves) = gen_position(rng, false);
+        script.push(Intent::Position { fen, moves });
+        let k = *rng.pick(&[255u32, 256, 257, 511, 512]) - cut as u32;
+        for _ in 0..k {
+            script.push(Intent::Go(GoSpec::depth(1)));
+            script.push(Intent::WaitBestmove);
+        }
+    }
+    // (thorough) the old game may have run the built-in benchmark, which uses tables of its own
+    if with_newgame && thorough && rng.chance(1, 400) {
+        script.push(Intent::Raw("bench".into()));
+    }
     for i in 0..n {
         if i == cut {
             newgame_at = Some(script.len());
